@@ -45,6 +45,8 @@ fn gen_case(seed: u64) -> Scenario {
         ],
         finalise: true,
     });
+    // the probe contracts are durable: losses of caches below only drop later blocks
+    ops.push(Op::Commit);
     let mut id = 20u32;
     let mut tag = 100u32;
     let mut ts = 10u64;
@@ -78,6 +80,10 @@ fn gen_case(seed: u64) -> Scenario {
         }
         if r.chance(1, 10) {
             ops.push(Op::Reorg { back: *r.pick(&[1i64, 2, 3]) });
+        }
+        // finalised but uncommitted blocks are dropped: the next transaction is built at a lower height again
+        if r.chance(1, 12) {
+            ops.push(if r.chance(2, 3) { Op::ClearCaches } else { Op::Restart { commit_first: false } });
         }
         if r.chance(1, 25) {
             ops.push(Op::Mine { n: 250 });
